@@ -315,8 +315,53 @@ def _task_entry(args):
     return st, vios, None
 
 
+def _task_sweep(args):
+    """a run of consecutive raw values for every convertible field (the conversions round: an error in the rounding shows
+    only at a small fraction of the values), each recognised unit of the field's quantity"""
+    idxs, width = args
+    db = refdb.db()
+    vios = []
+    st = {"cases": 0, "nontrivial": 0, "fields": 0}
+    ref_dec = NMEA2000Decoder()
+    for di in idxs:
+        defn = db.defs[di]
+        base = payloads.base_assignment(defn, "mid")
+        for i, f in enumerate(defn.fields):
+            if f.pq not in SI or f.unit != SI[f.pq] or f.bits is None or f.type not in refdb.NUMERIC or f.match is not None:
+                continue
+            rr = f.raw_range()
+            if not rr:
+                continue
+            st["fields"] += 1
+            lo = max(rr[0], min((rr[0] + rr[1]) // 2, rr[1] - width))
+            for unit in VALID[f.pq]:
+                q = next(k for k in OPTIONS if k.name == f.pq)
+                dec = NMEA2000Decoder(preferred_units={q: unit})
+                for raw in range(lo, min(lo + width, rr[1] + 1)):
+                    a = list(base)
+                    a[i] = raw & ((1 << f.bits) - 1)
+                    p, n = payloads.build(defn, a)
+                    ref = dec_line(ref_dec, defn.pgn, p, n)
+                    got = dec_line(dec, defn.pgn, p, n)
+                    st["cases"] += 1
+                    st["nontrivial"] += 1
+                    if isinstance(ref, tuple) or ref is None or isinstance(got, tuple) or got is None or ref.id != defn.id or i >= len(got.fields):
+                        continue
+                    av, bv = ref.fields[i].value, got.fields[i].value
+                    if av is None:
+                        continue
+                    want, tol = convert(unit, Fraction(av))
+                    if not isinstance(bv, (int, float)) or abs(Fraction(bv) - want) > tol:
+                        if len(vios) < 30:
+                            vios.append({"kind": "wrong_conversion", "facts": {"field": f.id, "unit": unit, "definition": defn.id, "mechanism": "rounding"},
+                                         "signature": f"sweep:{defn.pgn}:{defn.id}:{f.id}:{unit}",
+                                         "detail": f"[PGN {defn.pgn} {defn.id} field {f.id} raw {raw}, preference {unit}] {av!r} {SI[f.pq]} -> {bv!r}, exact {float(want)!r} (tolerance {float(tol)})",
+                                         "case": {"pgn": defn.pgn, "definition": defn.id, "payload_hex": p.to_bytes(n, "little").hex(), "sweep": [i, unit]}})
+    return st, vios, None
+
+
 def _dispatch(t):
-    return {"fields": _task, "order": _task_order, "entry": _task_entry}[t[0]](t[1])
+    return {"fields": _task, "order": _task_order, "entry": _task_entry, "sweep": _task_sweep}[t[0]](t[1])
 
 
 def run(ctx):
@@ -335,6 +380,9 @@ def run(ctx):
     for j in range(16):
         if conv[j::16]:
             tasks.append(("entry", (conv[j::16], ctx.seed)))
+    for j in range(32):
+        if conv[j::32]:
+            tasks.append(("sweep", (conv[j::32], 4096 if ctx.thorough else 1024)))
     results = common.pmap(_dispatch, tasks)
     vios, samples = [], []
     tot = {"cases": 0, "nontrivial": 0, "fields": 0}
@@ -351,7 +399,7 @@ def run(ctx):
                 "range ends, mid and a seeded raw; maps = all 144 combinations over the four convertible quantities + case variants "
                 "+ maps naming non-convertible quantities; non-trivial = non-empty map on a definition with a convertible field",
         "samples": samples, "fields_with_physical_quantity": tot["fields"], "preference_maps": len(all_maps()),
-        "bound_completed": ("quantity fields off base one at a time from 4 bases and two at a time from base mid" if ctx.thorough else "one field off base at a time") + "; all preference maps; every ordered pair of definitions sharing a PGN on one decoder; bases mid and max of every definition with a convertible field through 6 entry points (fast-packet messages frame by frame) x 8 full maps", "exhaustive": True,
+        "bound_completed": ("quantity fields off base one at a time from 4 bases and two at a time from base mid" if ctx.thorough else "one field off base at a time") + "; all preference maps; every ordered pair of definitions sharing a PGN on one decoder; bases mid and max of every definition with a convertible field through 6 entry points (fast-packet messages frame by frame) x 8 full maps; " + ("4096" if ctx.thorough else "1024") + " consecutive raws of every convertible field x each unit of its quantity", "exhaustive": True,
     }
     return {"coverage": cov, "violations": vios,
             "assumptions": ["a field is convertible when its database unit is the SI unit of its quantity (K, Pa, rad, m/s)",
@@ -365,6 +413,9 @@ def replay(ctx, rep):
         st, v, _ = _task_order(([c["pgn"]], 0))
         return [x for x in v if x["case"]["definition"] == c["definition"] and x["case"]["after"] == c["after"]][:1]
     defn = db.by_id[(c["pgn"], c["definition"])]
+    if "sweep" in c:
+        st, v, _ = _task_sweep(([defn.idx], 4096))
+        return [x for x in v if x["case"]["sweep"] == c["sweep"]][:1]
     if "entry" in c:
         st, v, _ = _task_entry(([defn.idx], 0))
         return [x for x in v if x["case"]["entry"] == c["entry"] and x["case"]["payload_hex"] == c["payload_hex"]][:1]
